@@ -22,6 +22,8 @@ def run(ctx):
                 res.samples.append({"body": b.path, "config": label, "payload_loops": len([1 for h, bd in v.loops()]),
                                     "report_sites": [(s.kind, s.ek, s.handling) for s in bs.sites][:6],
                                     "children": len(bs.children)})
+    import controls
+    controls.run(ctx, res, "C02", lambda crate, b, v, bs: flow.c02_rules(v, bs)[0])
     res.analysed.update({"report_sites": sites, "payload_loops": loops})
     res.floor("report sites", sites, 117)
     res.floor("payload loops", loops, 9)
